@@ -187,7 +187,7 @@ def scen_ping(rng, tier):
                     mk = b"\x0a\x0b\x0c\x0d" if srv else None
                     for silent_after in ([0, 1, 3, None] if tier == "thorough" else [rng.choice([0, 1, 2]), None]):
                         for rtt in ([SEC // 10, SEC // 2, SEC - 8] if tier == "thorough" else [rng.choice([SEC // 10, SEC // 2])]):
-                            for data_instead in ((0, 1) if T else (0,)):
+                            for data_instead in ((0, 1, 2) if T else (0,)):
                                 # simulate the SPEC: ping k goes out at p_k; answered at p_k + rtt; next at floor(answer + I)
                                 ev, exp_pings, t, seq = [], [], floor_s(I), 0
                                 last_answer = 0
@@ -219,7 +219,12 @@ def scen_ping(rng, tier):
                                         drop_at = floor_s(t + T)
                                         ev += probes(drop_at)
                                         break
-                                    if data_instead and restart:
+                                    if data_instead == 2 and restart:
+                                        # a data frame restarts the cycle; the (now stale) pong still arrives a little later
+                                        # and must change nothing
+                                        ev.append((ta, "feed," + wsgen.frame(2, b"data", mask=mk).hex()))
+                                        ev.append((ta + SEC // 16, "feed," + wsgen.frame(10, ping_payload(seq, size), mask=mk).hex()))
+                                    elif data_instead and restart:
                                         ev.append((ta, "feed," + wsgen.frame(2, b"data", mask=mk).hex()))
                                     elif data_instead:
                                         # data does not count when autoPingRestartOnAnyTraffic is off: also send the pong
